@@ -58,6 +58,10 @@ pub struct Compiler {
 
     /// Source file path for stack traces (propagated to all nested chunks)
     source_file: Option<String>,
+
+    /// Enums already declared in the open block scopes of this function body, with the
+    /// scope depth of the declaration; a repeated `enum E` in the same scope merges into it
+    declared_enums: Vec<(JsString, usize)>,
 }
 
 /// Context for a class being compiled (for private field handling)
@@ -128,6 +132,7 @@ impl Compiler {
             next_class_brand: 0,
             track_completion: false,
             source_file: None,
+            declared_enums: Vec::new(),
         }
     }
 
@@ -280,6 +285,8 @@ impl Compiler {
     fn emit_pop_scope(&mut self) {
         self.builder.emit(Op::PopScope);
         self.scope_depth = self.scope_depth.saturating_sub(1);
+        let depth = self.scope_depth;
+        self.declared_enums.retain(|(_, d)| *d <= depth);
     }
 
     /// The innermost loop's `break` lands `levels` scopes further out than where the
